@@ -225,7 +225,12 @@ def create_configured_connection(database: str = ":memory:") -> duckdb.DuckDBPyC
     conn = duckdb.connect(
         database, config={"storage_compatibility_version": STORAGE_COMPATIBILITY_VERSION}
     )
-    configure_duckdb_connection(conn)
+    try:
+        configure_duckdb_connection(conn)
+    except BaseException:
+        # Do not leave the connection open when its configuration is rejected.
+        conn.close()
+        raise
     return conn
 
 
@@ -240,13 +245,17 @@ def configured_connection(database: str = ":memory:") -> Iterator[duckdb.DuckDBP
     if database == ":memory:" and not _use_in_memory_db():
         database = str(session_dir / "session.duckdb")
 
-    conn = create_configured_connection(database)
-    conn.execute(f"SET temp_directory = '{session_dir}'")
+    conn: Optional[duckdb.DuckDBPyConnection] = None
     try:
+        # Set-up happens inside the try so that a failure while configuring the
+        # connection still removes the session directory and closes the connection.
+        conn = create_configured_connection(database)
+        conn.execute(f"SET temp_directory = '{session_dir}'")
         yield conn
     finally:
         try:
-            conn.close()
+            if conn is not None:
+                conn.close()
         finally:
             shutil.rmtree(session_dir, ignore_errors=True)
 
